@@ -41,6 +41,9 @@ CHECKS = {
  "C18": ("other", "Input-layer error discipline on every path: each call that reads from the input reader and returns io::Result (RDH/sub-word loaders, payload loader, seeks, load_cdp, batch builder, init_reader, init_processing, process) has its result propagated, matched or returned - never unwrapped/expected/ignored (in-memory re-decodes from byte slices are distinguished by the reader type); the batch builder breaks on UnexpectedEof/InvalidData keeping the partial batch and only an empty batch is an error; the reader sends the short last batch before stopping; a payload cut short is reported and the RDH still delivered; a skip past the end is reported and processing continues. Does not decide equality of findings on the intact prefix.",
          "Trusted: rustc nightly front end, /verif/driver, fpv provenance.",
          "error-discipline dataflow over MIR call results + THIR match-arm tables", "DESIGN.md §3 C18"),
+ "C06": ("other", "Non-interference obligations, discharged on every run: the transitive field-type closure of LinkValidator<T,C> (about 15 local types) contains no Arc/Rc/Mutex/RwLock/RefCell/Cell/atomic/raw pointer/non-static borrow - only the statistics Sender, its own input Receiver, &'static configuration and allow-listed owned std types; every static is an immutable OnceLock and validator-role functions reference only the two configuration cells; the dispatch id is the packet's own fee_id()/link_id(), the channel index is the id's position in `processors`, both vectors are pushed pairwise on all paths and have no other writers, the dispatch kind is FEE ID exactly for its-stave; every packet is sent exactly once, unchanged, and the validator consumes its queue in FIFO order; layer/stave extractors and both layer-stave match predicates use the documented masks. Given Rust's ownership rules this is close to a proof of the property; external crate types are allow-listed by reading, not analysed.",
+         "Trusted: rustc type checker (ownership/Send rules), /verif/driver ADT tables, fpv; the allow-list of external types in fpv/rules/c06.py.",
+         "type-closure scan over ADT tables + who-may-write / provenance rules on MIR + THIR normal forms for the masks", "DESIGN.md §3 C06"),
 }
 
 NOT_APPLICABLE = {
